@@ -41,6 +41,20 @@ func (e *withSecondaryError) SafeDetails() []string {
 	for err := e.secondaryError; err != nil; err = errbase.UnwrapOnce(err) {
 		sd := errbase.GetSafeDetails(err)
 		details = sd.Fill(details)
+		details = fillFromBranches(details, err)
+	}
+	return details
+}
+
+// fillFromBranches adds the PII-free details of the causes of a
+// multi-cause error, which UnwrapOnce does not reach.
+func fillFromBranches(details []string, err error) []string {
+	for _, branch := range errbase.UnwrapMulti(err) {
+		for c := branch; c != nil; c = errbase.UnwrapOnce(c) {
+			sd := errbase.GetSafeDetails(c)
+			details = sd.Fill(details)
+			details = fillFromBranches(details, c)
+		}
 	}
 	return details
 }
